@@ -1341,9 +1341,11 @@ def _loader_witness():
                     'why': 'date pattern text %r: %s' % (dates, 'loading does not return within 20 s' if rc == 124 else one_line(so + se, 200)), 'cmd': '%s --dates %r %r' % (QUERY_BIN, dates, '2 km -> m')}
     # definitions loaded one after another: a later load may redefine a unit in terms of one of its own aliases; each load is
     # acyclic on its own, the alias graph of the registry is not - queries that name the units must still be answered
-    for second in ('zca zcb\n', 'zca kzcb\n', 'zca 1 zcb\n', 'zcb zca\n', 'zca zcbs\n', 'zca zcc\nzcc zcb\n'):
-        first_text = 'zca m\nzcb zca\n'
-        qs = ['2 km -> m', '3 zca', '3 zcb -> zca', 'zca', 'zcb', '3 kzcb -> kzca', 'units for zca']
+    two_loads = [('zca m\nzcb zca\n', x) for x in ('zca zcb\n', 'zca kzcb\n', 'zca 1 zcb\n', 'zcb zca\n', 'zca zcbs\n', 'zca zcc\nzcc zcb\n')]
+    # an alias that leads into a cycle without being part of it, and a longer cycle
+    two_loads += [('zcc m\nzcb zcc\nzca zcb\n', 'zcc zcb\n'), ('zcd m\nzcc zcd\nzcb zcc\nzca zcb\n', 'zcd zcb\n'), ('zcc m\nzcb zcc\nzca kzcb\n', 'zcc zcbs\n')]
+    for first_text, second in two_loads:
+        qs = ['2 km -> m', '3 zca', '3 zcb -> zca', 'zca', 'zcb', '3 kzcb -> kzca', 'units for zca', 'zcc', '3 zca -> zcc']
         rc, so, se, dt = run([QUERY_BIN, '--defs', first_text, '--defs', second] + qs, timeout=30)
         answered = so.count('\n> ') + (1 if so.startswith('> ') else 0)
         if rc == 124 or rc not in (0, 1) or 'PANIC' in so or '2000 meter' not in so or answered < len(qs):
